@@ -3,23 +3,36 @@
 
 use anything::syntax::parser::{Parser, Syntax};
 use anything::Constant;
-use serde::Deserialize;
 use std::collections::{BTreeMap, BTreeSet};
 use std::path::Path;
 
-#[derive(Deserialize)]
-struct Doc {
-    #[serde(default)]
-    constants: Vec<Constant>,
+/// A shipped constant that the library of the tree under test refuses to decode (on the unchanged
+/// tree there is none): the harness still knows its words, so that it is asked for like any other.
+pub struct Refused {
+    pub tokens: Vec<String>,
+    pub why: String,
 }
 
 pub struct Shipped {
     pub constants: Vec<Constant>,
+    pub refused: Vec<Refused>,
     /// per asset: (name, number of constants)
     pub assets: Vec<(String, usize)>,
 }
 
+impl Shipped {
+    /// number of documents a complete index holds
+    pub fn docs(&self) -> usize {
+        self.constants.len() + self.refused.len()
+    }
+    /// the words of every shipped constant: the decodable ones first, then the refused ones
+    pub fn all_tokens(&self) -> Vec<Vec<String>> {
+        self.constants.iter().map(|c| c.tokens.iter().map(|t| t.to_string()).collect()).chain(self.refused.iter().map(|r| r.tokens.clone())).collect()
+    }
+}
+
 pub fn load(repo: &str) -> Result<Shipped, String> {
+    use serde_cbor::Value as V;
     let dir = Path::new(repo).join("db");
     let mut names: Vec<String> = std::fs::read_dir(&dir)
         .map_err(|e| format!("{}: {e}", dir.display()))?
@@ -29,14 +42,38 @@ pub fn load(repo: &str) -> Result<Shipped, String> {
         .collect();
     names.sort();
     let mut constants = Vec::new();
+    let mut refused = Vec::new();
     let mut assets = Vec::new();
     for n in names {
         let bytes = std::fs::read(dir.join(&n)).map_err(|e| format!("{n}: {e}"))?;
-        let d: Doc = serde_cbor::from_reader(flate2::read::GzDecoder::new(&bytes[..])).map_err(|e| format!("{n}: {e}"))?;
-        assets.push((n, d.constants.len()));
-        constants.extend(d.constants);
+        // decoded as plain CBOR first, constant by constant, so that a library that has become
+        // stricter about one constant does not take the harness down with it
+        let doc: V = serde_cbor::from_reader(flate2::read::GzDecoder::new(&bytes[..])).map_err(|e| format!("{n}: {e}"))?;
+        let list = match &doc {
+            V::Map(m) => match m.get(&V::Text("constants".into())) {
+                Some(V::Array(a)) => a.clone(),
+                _ => Vec::new(),
+            },
+            _ => return Err(format!("{n}: not a CBOR map")),
+        };
+        assets.push((n.clone(), list.len()));
+        for v in list {
+            match serde_cbor::value::from_value::<Constant>(v.clone()) {
+                Ok(c) => constants.push(c),
+                Err(e) => {
+                    let tokens = match &v {
+                        V::Map(m) => match m.get(&V::Text("tokens".into())) {
+                            Some(V::Array(t)) => t.iter().filter_map(|x| if let V::Text(s) = x { Some(s.clone()) } else { None }).collect(),
+                            _ => Vec::new(),
+                        },
+                        _ => Vec::new(),
+                    };
+                    refused.push(Refused { tokens, why: format!("{n}: {e}") });
+                }
+            }
+        }
     }
-    Ok(Shipped { constants, assets })
+    Ok(Shipped { constants, refused, assets })
 }
 
 /// Canonical bytes of a constant (for multiset comparison of stored payloads).
@@ -104,8 +141,8 @@ pub fn c14_queries(s: &Shipped) -> (Vec<String>, Vec<usize>) {
     let mut set: BTreeSet<String> = BTreeSet::new();
     let mut own: BTreeMap<String, usize> = BTreeMap::new();
     let mut freq: BTreeMap<String, usize> = BTreeMap::new();
-    for c in &s.constants {
-        let words: Vec<&str> = c.tokens.iter().map(|t| t.as_ref()).collect();
+    for toks in &s.all_tokens() {
+        let words: Vec<&str> = toks.iter().map(|t| t.as_str()).collect();
         if let Some(f) = typed_forms(&words).into_iter().next() {
             *own.entry(f.clone()).or_default() += 1;
             set.insert(f);
